@@ -100,7 +100,7 @@ FailTail(cons, region) == IF cons = "bz_fail" THEN << Lab("fail_" \o region), Op
 (* Skeletons.  K1 / K2 are statement sequences (already consumed checks), *)
 (* T1/T2 the fail tails for the main region / subroutine regions.          *)
 (* Each returns the program body after the pragma.                         *)
-NSkel == 30
+NSkel == 31
 Skel(j, K1, K2, Tm, Ts) ==
     CASE j = 1  -> K1 \o Approve \o Tm                                            \* straight line
       [] j = 2  -> K1 \o FreeCond(1) \o << Bz("else") >> \o Filler \o << B("join"), Lab("else") >> \o Filler
@@ -158,11 +158,15 @@ Skel(j, K1, K2, Tm, Ts) ==
       [] j = 30 -> FreeCond(1) \o << Bnz("second"), Callsub("sa") >> \o K1 \o Approve \o << Lab("second"), Callsub("sa") >> \o Approve \o Tm
                    \o << Lab("sa"), Callsub("sb"), Op("retsub"), Lab("sb"), Op("retsub") >>
                                                                                   \* shared nested callee, two call sites: checked after the first, not after the second
+      [] j = 31 -> << Callsub("sa") >> \o Approve \o Tm \o << Lab("sa") >> \o FreeCond(1) \o << Bz("skip") >> \o K1 \o << Op("retsub") >>
+                   \o FreeCond(2) \o << Bnz("other"), Lab("skip") >> \o Filler \o FreeCond(3) \o << Bz("other") >> \o Filler
+                   \o << Op("retsub"), Lab("other") >> \o Filler \o << Op("retsub") >> \o Ts
+                                                                                  \* dead code inside the callee: an unreachable block with two live successors
 
-SkelUsesSub(j) == j \in {10, 11, 12, 13, 14, 15, 16, 17, 18, 20, 21, 23, 24, 25, 26, 27, 28, 29, 30}
+SkelUsesSub(j) == j \in {10, 11, 12, 13, 14, 15, 16, 17, 18, 20, 21, 23, 24, 25, 26, 27, 28, 29, 30, 31}
 SkelUsesK2(j)  == j \in {4, 19, 20, 21}
 (* region in which hole 1 / hole 2 sits (for region-local fail labels)     *)
-Hole1Region(j) == IF j \in {10, 11, 12, 17, 18, 21, 24, 25, 26, 28} THEN "s" ELSE "m"
+Hole1Region(j) == IF j \in {10, 11, 12, 17, 18, 21, 24, 25, 26, 28, 31} THEN "s" ELSE "m"
 Hole2Region(j) == IF j = 21 THEN "s" ELSE "m"
 MinVersion(j)  == IF j \in {19} THEN 8 ELSE IF SkelUsesSub(j) \/ j \in {8, 9} THEN 4 ELSE 3
 
@@ -212,6 +216,8 @@ F1SentinelDigits ==
     \cup { << 7, 4, 0, 0, n, c, 0, 0, 3 >> : n \in 0..2, c \in {0, 2, 3} }
     \* every field checked after a call whose (nested) callee may approve by itself: skeletons 16, 27, 28, 29
     \cup { << f, 0, 0, 0, 0, 0, j, 0, 3 >> : f \in 2..9, j \in {15, 26, 27, 28} }
+    \* applications (approval programs) with one straight-line check of Sender / OnCompletion / ApplicationID
+    \cup { << f, o, 0, c, 0, 0, 0, 1, 3 >> : f \in {4, 6, 7}, o \in {0, 1}, c \in {0, 1} }
 
 -----------------------------------------------------------------------------
 (* Family f2: two checks, joined in one block by && / || or placed in two holes *)
@@ -330,6 +336,8 @@ F3Random(k) == F3Case("f3", k, [i \in 1..Len(F3Radix) |-> Rnd(k, 3, i, F3Radix[i
 F3SentinelDigits ==
     { << f, kd, ix, 0, 0, 0, g, 0, 0, 0, 0 >> : f \in 0..2, kd \in 0..8, ix \in 0..1, g \in 0..5 }
     \cup { << 1, kd, 0, 3, s, 1, g, 0, 0, 0, 0 >> : kd \in 0..8, s \in 0..1, g \in {0, 4} }
+    \* an application that checks another member's OnCompletion / Sender
+    \cup { << f, kd, 0, 0, 0, 0, 0, 0, 0, 0, 1 >> : f \in {4, 5}, kd \in 0..1 }
     \* absolute-index reads only inside a loop body / only in a callee (group-size-check)
     \cup { << 0, kd, 0, 0, 0, 0, 0, 0, j, 0, 0 >> : kd \in 0..1, j \in {7, 8, 9, 10, 16} }
 
